@@ -51,6 +51,9 @@ type rbScn struct {
 	paceOverride bool
 	plMutated    bool
 	plStillMedia bool
+	// set by a fault whose verdict depends on where it lands (e.g. an all-empty segment: skipped on a rendition,
+	// an error on the leading stream)
+	nextMust string
 }
 
 func rbPick[T any](r *rand.Rand, xs []T) T { return xs[r.Intn(len(xs))] }
@@ -629,6 +632,9 @@ func rbFaults() []rbFault {
 				return false
 			}
 			st := sc.streams[1+r.Intn(len(sc.streams)-1)]
+			if st.container != "fmp4" {
+				return false
+			}
 			st.init.Tracks = append(st.init.Tracks, &fmp4.InitTrack{ID: st.init.Tracks[0].ID + 1, TimeScale: 48000,
 				Codec: rbFMP4Codec(rbPick(r, rbFMP4Kinds))})
 			return true
@@ -655,6 +661,17 @@ func rbFaults() []rbFault {
 						}
 					}
 					p.Tracks = keep
+				}
+				if st != sc.streams[0] || len(dl) > 1 {
+					left := false
+					for _, p := range st.parts[f] {
+						for _, pt := range p.Tracks {
+							left = left || len(pt.Samples) > 0
+						}
+					}
+					if !left {
+						sc.nextMust = "ok" // nothing with a sample is left: an all-empty segment is skipped (F15)
+					}
 				}
 			} else {
 				lead := -1
@@ -713,6 +730,9 @@ func rbFaults() []rbFault {
 				t := st.init.Tracks[lead]
 				// a huge duration followed by one more sample, or a base time that jumps a minute ahead
 				last := st.parts[len(st.parts)-1]
+				if len(last) == 0 {
+					return false // emptied by another fault
+				}
 				for _, pt := range last[0].Tracks {
 					if pt.ID == t.ID {
 						if r.Intn(2) == 0 {
@@ -802,7 +822,13 @@ func rbFaults() []rbFault {
 			st.initBytes = g
 			return true
 		}},
-		{name: "segment-of-other-container", must: "err", post: func(r *rand.Rand, sc *rbScn) bool {
+		{name: "segment-of-other-container", must: "err", apply: func(r *rand.Rand, sc *rbScn) bool {
+			// MPEG-TS bytes decode as "no fragment at all" for go-mp4: on an fMP4 stream that is an all-empty segment (skipped, F15)
+			if sc.streams[0].container == "fmp4" {
+				sc.nextMust = "any"
+			}
+			return true
+		}, post: func(r *rand.Rand, sc *rbScn) bool {
 			st := rbPick(r, sc.streams)
 			_, order := st.script(0)
 			if len(order) == 0 {
@@ -820,13 +846,92 @@ func rbFaults() []rbFault {
 			}
 			return true
 		}},
-		{name: "empty-segment", must: "err", post: func(r *rand.Rand, sc *rbScn) bool {
-			st := rbPick(r, sc.streams)
-			_, order := st.script(0)
-			if len(order) == 0 {
+		{name: "empty-segment", must: "err", apply: func(r *rand.Rand, sc *rbScn) bool {
+			// a zero-byte file. fMP4: a segment without any sample, skipped (repair of F15); MPEG-TS: error
+			s := r.Intn(len(sc.streams))
+			st := sc.streams[s]
+			dl := st.downloaded()
+			if len(dl) == 0 {
 				return false
 			}
-			st.files[rbPick(r, order)] = nil
+			f := rbPick(r, dl)
+			if st.container == "fmp4" {
+				st.parts[f] = nil
+				if s > 0 || len(dl) > 1 {
+					sc.nextMust = "ok" // skipped; a leading stream of which nothing else is downloaded ends with an error
+				}
+			} else {
+				st.writes[f] = nil
+			}
+			return true
+		}},
+		{name: "empty-rendition-segment", must: "ok", apply: func(r *rand.Rand, sc *rbScn) bool {
+			// F15: what the muxer serves for a rendition whose track wrote nothing between two cuts: `moof` without `traf`;
+			// first / middle / last / several / all downloaded segments (or LL parts) of the rendition
+			if len(sc.streams) < 2 || sc.streams[1].container != "fmp4" {
+				return false
+			}
+			s := 1 + r.Intn(len(sc.streams)-1)
+			st := sc.streams[s]
+			dl := st.downloaded()
+			if len(dl) == 0 || st.container != "fmp4" {
+				return false
+			}
+			var pick []int
+			switch r.Intn(5) {
+			case 0:
+				pick = []int{dl[0]}
+			case 1:
+				pick = []int{dl[len(dl)-1]}
+			case 2:
+				pick = []int{dl[len(dl)/2]}
+			case 3:
+				pick = dl
+			default:
+				for _, f := range dl {
+					if r.Intn(2) == 0 {
+						pick = append(pick, f)
+					}
+				}
+				if len(pick) == 0 {
+					pick = []int{dl[0]}
+				}
+			}
+			for _, f := range pick {
+				switch r.Intn(4) {
+				case 0, 1:
+					st.parts[f] = fmp4.Parts{{SequenceNumber: uint32(f + 1)}}
+				case 2: // several empty fragments
+					st.parts[f] = fmp4.Parts{{SequenceNumber: uint32(f + 1)}, {SequenceNumber: uint32(f + 2)}}
+				default: // a `traf` of an id the init does not know, without samples
+					st.parts[f] = fmp4.Parts{{SequenceNumber: uint32(f + 1), Tracks: []*fmp4.PartTrack{{ID: 4242, BaseTime: 7}}}}
+				}
+			}
+			return true
+		}},
+		{name: "empty-leading-segment", must: "ok", apply: func(r *rand.Rand, sc *rbScn) bool {
+			// the same on the leading stream: skipped too; the origin is defined by the first segment that carries data
+			st := sc.streams[0]
+			dl := st.downloaded()
+			if st.container != "fmp4" || len(dl) == 0 {
+				return false
+			}
+			st.parts[rbPick(r, dl)] = fmp4.Parts{{SequenceNumber: 1}}
+			if len(dl) == 1 {
+				sc.nextMust = "err"
+			}
+			return true
+		}},
+		{name: "leading-stream-all-empty", must: "err", apply: func(r *rand.Rand, sc *rbScn) bool {
+			// a leading stream that never carries a sample never defines the origin the renditions wait for: it must end with
+			// an error when it reaches its end (not leave them waiting for ever)
+			st := sc.streams[0]
+			if st.container != "fmp4" {
+				return false
+			}
+			for f := range st.parts {
+				st.parts[f] = fmp4.Parts{{SequenceNumber: uint32(f + 1)}}
+			}
 			return true
 		}},
 		{name: "live-too-short", must: "err", apply: func(r *rand.Rand, sc *rbScn) bool {
@@ -893,11 +998,10 @@ func rbGenCase(r *rand.Rand, _ int, tier string) (*rbCase, []string) {
 		var post []rbFault
 		inject := func() bool {
 			f := faults[r.Intn(len(faults))]
-			if f.apply != nil {
-				if !f.apply(r, sc) {
-					return false
-				}
-			} else {
+			if f.apply != nil && !f.apply(r, sc) {
+				return false
+			}
+			if f.post != nil {
 				post = append(post, f)
 			}
 			sc.faults++
@@ -905,7 +1009,12 @@ func rbGenCase(r *rand.Rand, _ int, tier string) (*rbCase, []string) {
 				sc.fault += "+"
 			}
 			sc.fault += f.name
-			if f.must == "err" && sc.must != "any" {
+			if sc.nextMust != "" {
+				f.must, sc.nextMust = sc.nextMust, ""
+			}
+			if f.must == "ok" {
+				// the stream stays well-formed for the client
+			} else if f.must == "err" && sc.must != "any" {
 				sc.must = "err"
 			} else if f.must == "any" {
 				sc.must = "any"
@@ -936,15 +1045,24 @@ func rbGenCase(r *rand.Rand, _ int, tier string) (*rbCase, []string) {
 			sc.tags = append(sc.tags, "family=close")
 		case family < 55: // low latency
 			st := sc.streams[0]
-			if st.container != "fmp4" || len(sc.streams) != 1 {
+			n := len(st.parts)
+			if st.container != "fmp4" || n < 2 {
 				continue
 			}
-			n := len(st.parts)
-			st.mode, st.k = "ll", 1
-			if n < 2 {
-				continue
+			for _, x := range sc.streams {
+				x.mode, x.k = "ll", 1
 			}
 			sc.must, sc.fault, sc.faults = "err", "ll-hint-ends", 1
+			if r.Intn(2) == 0 {
+				// F15 in its original habitat: LL parts without any sample (a rendition; or a rendition playlist opened directly)
+				rs := sc.streams[r.Intn(len(sc.streams))]
+				for f := 1; f < len(rs.parts); f++ {
+					if r.Intn(2) == 0 {
+						rs.parts[f] = fmp4.Parts{{SequenceNumber: uint32(f + 1)}}
+					}
+				}
+				sc.fault = "ll-hint-ends+empty-parts"
+			}
 			sc.tags = append(sc.tags, "family=low-latency")
 		default:
 			sc.tags = append(sc.tags, "family="+map[bool]string{true: "bytes", false: "playlist"}[family < 80])
